@@ -281,6 +281,12 @@ func checkC11(c C11Case) Verdict {
 				return excluded("harness: plural body outside the model")
 			}
 			e.msgid, e.plural = msgidOf(one), msgidOf(other)
+			if e.msgid == "" || e.plural == "" {
+				// (an empty msgid is the header of a PO file, and an entry with an empty msgid_plural is
+				// written - and read back - as one that has no plural: PO cannot hold this message)
+				representable = false
+				continue
+			}
 			nv, st, _ := ref.EvalExpr(pl.Expr, ref.NewEnv(letEnv(lets), nil, false, gen.MsgGlobals))
 			if st != ref.OK || nv.K != ref.Int {
 				return excluded("harness: plural value")
